@@ -57,6 +57,21 @@ def run(chk: core.Check):
     docs3 = ev.small_docs(3)
     cases = [(d, [v]) for d in docs3 for v in ev.VOCAB]
     chk.extra_cov["exhaustive_bound"] = "%d documents (<= 3 nodes) x %d one-segment paths" % (len(docs3), len(ev.VOCAB))
+    # every escapable punctuation key, alone and nested, under every way of reaching it
+    one = {"k": "int", "v": "1"}
+    for k in ev.PUNCT_KEYS + [".", "/", "\\", "(", ")", "[", "]", "^", "$", "%", " ", "'", '"', "a b.c/d"]:
+        if not isinstance(k, str):
+            continue
+        shapes = [{"k": "map", "e": [[k, one]]},
+                  {"k": "map", "e": [[k, {"k": "map", "e": [["a", one], [k, one]]}]]},
+                  {"k": "map", "e": [[k, {"k": "seq", "i": [one, {"k": "map", "e": [[k, one]]}]}]]},
+                  {"k": "seq", "i": [{"k": "map", "e": [[k, one]]}]},
+                  {"k": "map", "e": [["s", {"k": "set", "m": [k]}]]}]
+        kt = ev.key_text(k)
+        for sh in shapes:
+            for p in (["*"], ["**"], [kt], ["*", "*"], ["**", "*"], [kt, "*"], [kt, kt], ["*", kt], ["[.!=zz]"], ["**", "[.=1]"],
+                      ["s", "*"], ["s", kt], ["[0]", kt], [kt, "[1]", kt]):
+                cases.append((sh, p))
     nrand = 150000 if chk.tier == "quick" else 2000000
     for _ in range(nrand):
         d = ev.random_doc(rng, rng.choice([6, 10, 15, 25]), keys=ev.PUNCT_KEYS if rng.random() < 0.6 else None)
